@@ -200,6 +200,8 @@ class _T:
                 return f"{pad}.error .runtimeErr"
             self.fail(st, "raise outside the fragment")
         if isinstance(st, ast.Return):
+            if st.value is None and self.spec.returns is None:
+                return f"{pad}.ok {self.result(env, None)}"        # early exit of a method that returns nothing
             if st.value is None or self.spec.returns is None:
                 self.fail(st, "return outside the modelled form")
             t, v, u = self.need(st.value, env, [self.spec.returns])
